@@ -310,6 +310,7 @@ func init() {
 	f8 := "(F8) every index into a fixed-length batch buffer is proved inside the buffer by an interval analysis (the scanners run in goroutines without a recover)."
 	addScoped("C12", "F8", in("reader/"), f8)
 	addScoped("C05", "F8", in("writer/"), f8)
+	addScoped("C05", "C3", in(""), "(C3) the per-entry arrays a decoder hands to the row builder belong to one length class for every body, so no request can leave the columns of the shared batch with different lengths (the block would be refused for every client whose rows are in it).")
 	addScoped("C12", "F7", in(""), "(F7) a pipeline stage that leaves its receive loop before the upstream channel is closed starts a goroutine draining it, so the stages above it (down to the database scan) can end.")
 	addScoped("C14", "H6", in(""), "(H6) per-execution flags kept in a plan object (isAliased) are reset on every return of Process or initialised before any read, so each execution starts from the same state.")
 	addScoped("C10", "E5", in(""), "(E5) rendered / escaped SQL text is never part of a fmt format string (its % sequences would be interpreted).")
